@@ -136,12 +136,14 @@ def check_case(e, c, stat=None):
     nope = cls == "rx" and ver == 1 and c["nope"]
     pre = "C01:%s:v%d%s" % (cls, ver, ":nope" if nope else "")
     out = []
-    e["last_buf"] = None
+    e["last_buf"] = e["last_snap"] = None
     try:
         data = E.build_tk(dm, c).gen_msg(c["legacy"])
     except Exception as ex:
         return [("%s:gen-raises-%s" % (pre, type(ex).__name__),
                  "gen_msg(legacy=%s) raised %s(%s) on a valid message" % (c["legacy"], type(ex).__name__, ex))]
+    e["last_buf"] = data                # the object gen_msg() returned (aliasing checks) ...
+    e["last_snap"] = bytes(data)        # ... and what it held at that moment
     p = dm.TxMsg() if cls == "tx" else dm.RxMsg()
     try:
         # as data_if.py hands it over: bytes for Tx, bytearray for Rx
@@ -149,7 +151,6 @@ def check_case(e, c, stat=None):
     except Exception as ex:
         return [("%s:parse-raises-%s" % (pre, type(ex).__name__),
                  "parse_msg() raised %s(%s) on the toolkit's own encoding %s" % (type(ex).__name__, ex, bytes(data[:12]).hex()))]
-    e["last_buf"] = data
     o, nf, nbits = compare_fields(e, c, p, data, pre)
     out += o
     nrt = 1
@@ -233,7 +234,7 @@ class History:
                     "hist_length_changes": 0, "hist_fields_compared": 0, "hist_minimised": 0, "hist_not_minimised": 0}
         self.last_bl = {"tx": -1, "rx": -1}
 
-    def process(self, kind, m, buf=None):
+    def process(self, kind, m, buf=None, snap=None):
         """-> ([(key, msg)], history = list of [kind, message])"""
         e = self.e
         dm = e["dm"]
@@ -245,47 +246,59 @@ class History:
         cov["hist_messages"] += 1
         hist = self.ring + [[kind, m]]
         self.ring = hist[-2:]
-        try:
-            if kind == "twin" or buf is None:
-                src = E.build_tk(dm, m)
-                fresh = src.gen_msg(m["legacy"])
+        def gen(obj):
+            """gen_msg() of the code under test; its exceptions become violations, not harness errors"""
+            try:
+                b_ = obj.gen_msg(m["legacy"])
+                return b_, bytes(b_)
+            except Exception as ex:
+                out.append(("%s:gen-raises-%s" % (fam, type(ex).__name__), "gen_msg() raised %s(%s) on a valid message"
+                            % (type(ex).__name__, str(ex)[:200])))
+                return None, None
+
+        if kind == "twin" or buf is None:
+            src = E.build_tk(dm, m)
+            fresh, fresh_snap = gen(src)
+            if fresh is None:
+                return out, hist
             if kind == "twin":
                 cov["hist_twins"] += 1
                 cov["hist_reused_encodes"] += 1
                 enc = self.enc[cls]
                 for a in (TX_ATTRS if cls == "tx" else RX_ATTRS) + ("burst",):
                     setattr(enc, a, getattr(src, a))
-                buf = enc.gen_msg(m["legacy"])
-                if bytes(buf) != bytes(fresh):
+                buf, snap = gen(enc)
+                if buf is None:
+                    return out, hist
+                if snap != fresh_snap:
                     out.append((fam + ":enc-reuse", "an encoder object used before emits %s..., a new object %s... for the same message"
-                                % (bytes(buf[:12]).hex(), bytes(fresh[:12]).hex())))
+                                % (snap[:12].hex(), fresh_snap[:12].hex())))
                 ep = self.enc_prev[cls]
                 if ep is not None:
                     cov["hist_aliasing_checks"] += 1
                     if bytes(ep[0]) != ep[1]:
                         out.append(("%s:enc-aliasing" % ep[2], "the buffer gen_msg() returned earlier changed when gen_msg() ran again on the "
                                     "same object: was %s..., now %s..." % (ep[1][:12].hex(), bytes(ep[0][:12]).hex())))
-                self.enc_prev[cls] = (buf, bytes(buf), fam)
-            elif buf is None:
-                buf = fresh
-        except Exception as ex:
-            out.append(("%s:gen-raises-%s" % (fam, type(ex).__name__), "gen_msg() raised %s(%s) on a valid message" % (type(ex).__name__, ex)))
-            return out, hist
-        if self.prev is not None and self.prev[0] is not buf:
+                self.enc_prev[cls] = (buf, snap, fam)
+            else:
+                buf, snap = fresh, fresh_snap
+        if self.prev is not None:
             cov["hist_aliasing_checks"] += 1
             if bytes(self.prev[0]) != self.prev[1]:
                 out.append(("%s:enc-aliasing" % self.prev[2], "the buffer gen_msg() returned for the previous message changed when gen_msg() "
                             "ran for the next one: was %s..., now %s..." % (self.prev[1][:12].hex(), bytes(self.prev[0][:12]).hex())))
-        self.prev = (buf, bytes(buf), fam)
+        self.prev = (buf, snap, fam)
         p = self.dec[cls]
         cov["hist_reused_decodes"] += 1
         try:
-            p.parse_msg(bytes(buf) if cls == "tx" else bytearray(buf))
+            # decode what gen_msg() returned at the moment it returned it (snap); a later change of the returned object is
+            # the aliasing check's business
+            p.parse_msg(snap if cls == "tx" else bytearray(snap))
         except Exception as ex:
             out.append(("%s:parse-raises-%s" % (fam, type(ex).__name__), "parse_msg() on a decoder object used before raised %s(%s)"
                         % (type(ex).__name__, ex)))
             return out, hist
-        o, nf, _ = compare_fields(e, m, p, buf, fam + (":nope" if nope else ""))
+        o, nf, _ = compare_fields(e, m, p, snap, fam + (":nope" if nope else ""))
         cov["hist_fields_compared"] += nf
         out += o
         bl = m["bl"] or 0
@@ -330,7 +343,7 @@ def inplace_visit(e, c):
 
     try:
         m = E.build_tk(dm, c)
-        data0 = m.gen_msg(legacy)
+        data0 = bytes(m.gen_msg(legacy))    # snapshot at once: what gen_msg() returned may be overwritten later (aliasing)
     except Exception:
         return 0, []                # reported by the plain round trip
     steps = list(E.inplace_plan(c))
@@ -349,6 +362,11 @@ def inplace_visit(e, c):
     rt(p, "reencode-after-parse", c, "none")
     cur = c
     if c["bl"] is not None:
+        if p.burst is None or len(p.burst) != c["bl"]:
+            if not out:
+                out.append(("%s:reencode-after-parse:burst-shape" % fam, "a used decoder object parsed the encoding of a message with %d "
+                            "burst bits and holds %s" % (c["bl"], "no burst" if p.burst is None else "%d bits" % len(p.burst))))
+            return n[0], out
         label, op, cur = steps[0]
         E.apply_inplace(p, op)
         rt(p, "reencode-after-inplace-change", cur, label)
@@ -358,6 +376,13 @@ def inplace_visit(e, c):
     p.fn = cur["fn"]
     rt(p, "reencode-after-inplace-change", cur, "fn")
     return n[0], out
+
+
+def unexpected(leg, ex):
+    """violation for an exception that escaped a leg: the code under test (or a consequence of its misbehaviour) must never
+    turn into a harness error"""
+    return ("C01:unexpected-exception:%s:%s" % (leg, type(ex).__name__),
+            "%s(%s) escaped the %s leg while handling a valid message" % (type(ex).__name__, str(ex)[:200], leg))
 
 
 def replay_history(e, hist):
@@ -565,7 +590,10 @@ def work_accepted(i):
             continue
         cov["accept_candidates"] += 1
         cov["accept_by_group"][c["grp"]] = cov["accept_by_group"].get(c["grp"], 0) + 1
-        st, r = check_accepted(e, c)
+        try:
+            st, r = check_accepted(e, c)
+        except Exception as ex:
+            st, r = "other-exception", [unexpected("accepted", ex)]
         tv = table_valid(c)
         if st == "accepted":
             cov["accept_accepted"] += 1
@@ -630,11 +658,14 @@ def work(chunk):
     ninpl = [0, 0]
     sweep = chunk[3] if chunk[0] == "sweep" else None
     for i, (kind, c) in enumerate(seq_chunk(chunk)):
-        buf = None
+        buf = snap = None
         if kind != "twin":
             n += 1
-            r = check_case(e, c, stat)
-            buf = e["last_buf"]
+            try:
+                r = check_case(e, c, stat)
+                buf, snap = e["last_buf"], e["last_snap"]
+            except Exception as ex:
+                r = [unexpected("case", ex)]
             # inside a sweep chunk the cases differ in the swept field only
             k = c[sweep] if sweep else E.case_key(c)
             keys.add(k)
@@ -650,23 +681,34 @@ def work(chunk):
                 if key not in vkeys:
                     vkeys.add(key)
                     viol.append((key, c, msg))
-            if E.inplace_here(chunk, n - 1):
-                ne, ir = inplace_visit(e, c)
-                ninpl[0] += 1
-                ninpl[1] += ne
-                for key, msg in ir:
-                    nviol += 1
-                    if key not in vkeys:
-                        vkeys.add(key)
-                        viol.append((key, {"leg": "inplace", "case": c}, msg))
-        if kind == "case-fresh-only":
-            continue
-        hr, hist = H.process(kind, c, buf)
-        for key, msg in hr:
-            nviol += 1
-            if key not in vkeys:
+        if kind != "case-fresh-only":       # history step right after the plain round trip, before anything else encodes
+            try:
+                hr, hist = H.process(kind, c, buf, snap)
+            except Exception as ex:
+                hr, hist = [unexpected("history", ex)], None
+            for key, msg in hr:
+                nviol += 1
+                if key in vkeys:
+                    continue
                 vkeys.add(key)
-                viol.append(history_viol(e, H, key, msg, hist, chunk, i))
+                try:
+                    if hist is None:
+                        raise ValueError
+                    viol.append(history_viol(e, H, key, msg, hist, chunk, i))
+                except Exception:
+                    viol.append((key, {"leg": "history-seq", "chunk": chunk, "n": i}, msg))
+        if kind != "twin" and E.inplace_here(chunk, n - 1):
+            try:
+                ne, ir = inplace_visit(e, c)
+            except Exception as ex:
+                ne, ir = 0, [unexpected("inplace", ex)]
+            ninpl[0] += 1
+            ninpl[1] += ne
+            for key, msg in ir:
+                nviol += 1
+                if key not in vkeys:
+                    vkeys.add(key)
+                    viol.append((key, {"leg": "inplace", "case": c}, msg))
     cov = dict(stat, evaluations=n, distinct_cases=len(keys), distinct_nontrivial=len(good),
                by_class=by_class, by_group=by_group, chunks=1, hist_inplace_visits=ninpl[0], hist_inplace_roundtrips=ninpl[1])
     cov.update(H.cov)
@@ -675,7 +717,10 @@ def work(chunk):
 
 def work_tables(_):
     e = env()
-    r = check_tables(e)
+    try:
+        r = check_tables(e)
+    except Exception as ex:
+        r = [unexpected("tables", ex)]
     return {"cov": {"table_checks": 6, "table_entries_checked": 255 * 4 + 4},
             "viol": [(k, {"leg": "tables"}, m) for k, m in r]}
 
@@ -731,7 +776,7 @@ def run(ctx):
                         "FN 2^24-1 and 2^24 of the design's quick set are invalid frame numbers and left to C13"]
 
 
-def replay(ctx, case):
+def _replay(ctx, case):
     e = env()
     if case.get("leg") == "tables":
         for k, m in check_tables(e):
@@ -754,11 +799,23 @@ def replay(ctx, case):
         for i, (kind, c) in enumerate(seq_chunk(case["chunk"])):
             if kind == "case-fresh-only":
                 continue
-            hr, _ = H.process(kind, c)
+            try:
+                hr, _ = H.process(kind, c)
+            except Exception as ex:
+                hr = [unexpected("history", ex)]
             if i == case["n"]:
                 for k, m in hr:
                     ctx.violation(k, case, m)
                 break
         return
     for k, m in check_case(e, case):
+        ctx.violation(k, case, m)
+
+
+def replay(ctx, case):
+    leg = case.get("leg", "case")
+    try:
+        _replay(ctx, case)
+    except Exception as ex:
+        k, m = unexpected({"history-seq": "history"}.get(leg, leg), ex)
         ctx.violation(k, case, m)
